@@ -79,6 +79,16 @@ partial def parseTree : List String → Option (T × List String)
   | "rcons" :: r => do
       let (a, r) ← parseTree r; let (b, r) ← parseTree r
       pure (.rcons a b, r)
+  | "psnil" :: n :: m :: r => do pure (.psnil (← n.toNat?) (← m.toNat?), r)
+  | "pscons" :: ro :: co :: r => do
+      let ro ← ro.toNat?; let co ← co.toNat?
+      let (a, r) ← parseTree r; let (b, r) ← parseTree r
+      pure (.pscons ro co a b, r)
+  | "cmodsq" :: n :: r => do pure (.cmodsq (← n.toNat?), r)
+  | "realpart" :: n :: r => do pure (.realpart (← n.toNat?), r)
+  | "imagpart" :: n :: r => do pure (.imagpart (← n.toNat?), r)
+  | "cembed" :: n :: a :: b :: r => do
+      pure (.cembed (← n.toNat?) (← parseRat a) (← parseRat b), r)
   | "dnil" :: r => pure (.dnil, r)
   | "dcons" :: r => do
       let (a, r) ← parseTree r; let (b, r) ← parseTree r
@@ -99,7 +109,7 @@ def doDeriv (l : Line) : Option String := do
   if xs.length ≠ i.dom || ds.length ≠ i.dom then none
   let x := vecOf xs
   let d := vecOf ds
-  if !i.wf then return "err:wf"
+  if !i.wf || !i.cwf then return "err:wf"
   let head := s!"lin={b01 i.isLinear} dom={i.dom} ran={i.ran} fld={b01 i.ranField} val={dump i x}"
   match i.deriv x with
   | none => some s!"err:deriv {head}"
